@@ -23,7 +23,7 @@ ASSUMPTIONS = [
     "definition keys never name a *different* element than the reachable class of that name (ambiguous caller input)",
     "trees are acyclic; property wrappers are never shared between two owners",
 ]
-BUDGET = {"quick": 260, "thorough": 3500}
+BUDGET = {"quick": 480, "thorough": 4500}
 
 try:
     import jsonschema
